@@ -2,6 +2,7 @@ package main
 
 import (
 	"fmt"
+	"reflect"
 	"strings"
 
 	"github.com/esimov/gogu/list"
@@ -288,7 +289,7 @@ func (s *listSys) Apply(o seqmc.Op, c *seqmc.Ctx) {
 func chainLen(impl any, limit int) int {
 	v := seqmc.Get(impl, "next")
 	n := 1
-	for !v.IsNil() {
+	for v.IsValid() && v.Kind() == reflect.Pointer && !v.IsNil() {
 		n++
 		if n > limit {
 			return -1
